@@ -837,12 +837,12 @@ class KeyEventSpec(Spec):
     def read(self, header, frame, data):
         events = []
         while len(data) >= 5:
-            events.append(struct.unpack(">bI", data[:5]))
+            events.append(struct.unpack(">BI", data[:5]))
             data = data[5:]
         return events, data
 
     def write(self, config, frame, value):
-        return b"".join(struct.pack(">bI", *event) for event in value)
+        return b"".join(struct.pack(">BI", *event) for event in value)
 
     def validate(self, frame, value):
         return list(value)
